@@ -15,7 +15,8 @@ use std::fmt;
 enum Ev {
     Init,
     Header(u32, u32), // version word, bound
-    Inst(dr::Instruction),
+    /// the delivered instruction as a model value (compared field by field, not through the subject's PartialEq) and its name
+    Inst(Inst, &'static str),
     Fin,
 }
 
@@ -77,7 +78,7 @@ impl Consumer for Scripted {
         self.answer()
     }
     fn consume_instruction(&mut self, i: dr::Instruction) -> ParseAction {
-        self.log.push(Ev::Inst(i));
+        self.log.push(Ev::Inst(model::from_dr(&i), i.class.opname));
         self.answer()
     }
 }
@@ -191,7 +192,8 @@ fn expected_log(c: &Case) -> Vec<Ev> {
     if let Some((v, b)) = c.header {
         full.push(Ev::Header(v, b));
         for i in &c.good {
-            full.push(Ev::Inst(model::to_dr(i).expect("good instruction constructible")));
+            let d = model::to_dr(i).expect("good instruction constructible");
+            full.push(Ev::Inst(model::from_dr(&d), d.class.opname));
         }
         if c.fault.is_none() {
             full.push(Ev::Fin);
@@ -248,7 +250,7 @@ fn check_case(c: &Case) -> (Vec<Viol>, BTreeMap<String, u64>, u64) {
             None => &full[..],
         };
         if log != want_log {
-            let show = |l: &[Ev]| l.iter().map(|e| match e { Ev::Init => "initialize".to_string(), Ev::Header(..) => "header".to_string(), Ev::Inst(i) => format!("inst({})", i.class.opname), Ev::Fin => "finalize".to_string() }).collect::<Vec<_>>().join(" ");
+            let show = |l: &[Ev]| l.iter().map(|e| match e { Ev::Init => "initialize".to_string(), Ev::Header(..) => "header".to_string(), Ev::Inst(_, n) => format!("inst({})", n), Ev::Fin => "finalize".to_string() }).collect::<Vec<_>>().join(" ");
             let what = if log.len() > want_log.len() { "extra-callback" } else if log.len() < want_log.len() { "missing-callback" } else { "different-callback" };
             out.push(viol(key(what), format!("case {} script {:?}: callbacks were [{}], protocol demands [{}]", c.name, script, show(&log), show(want_log)), rep.clone()));
             continue;
